@@ -482,8 +482,9 @@ def natOfDigits (l : Bytes) : Nat := l.foldl (fun a b => a * 10 + (b.toNat - 48)
 
 def strBytes (s : String) : Bytes := s.toUTF8.toList
 
-/-- `parse_str`; `dbl` = bits of `value.parse::<f64>()` supplied from outside for double-looking cells;
-    `.parse::<i64>().unwrap()` / `.parse::<u64>().unwrap()` panic when out of range -/
+/-- `parse_str` (after `fix:` e2ec8fec); `dbl` = bits of `value.parse::<f64>()` supplied from outside for
+    double-looking cells; a digit string outside the `i64` / `u64` range stays a string
+    (before that commit `.parse().unwrap()` panicked on it) -/
 def parseStr (s : Bytes) (dbl : Option Bytes) : Outcome Value :=
   if s.isEmpty then .ok (.str [])
   else if s = strBytes "true" then .ok (.bool true)
@@ -494,10 +495,10 @@ def parseStr (s : Bytes) (dbl : Option Bytes) : Outcome Value :=
     | none => .err   -- protocol error: the harness always supplies the bits
   else if looksInt s then
     let n := natOfDigits (s.drop 1)
-    if n ≤ 2 ^ 63 then .ok (.int (-(n : Int))) else .panic
+    if n ≤ 2 ^ 63 then .ok (.int (-(n : Int))) else .ok (.str s)
   else if looksUInt s then
     let n := natOfDigits s
-    if n < U64 then .ok (.uint n) else .panic
+    if n < U64 then .ok (.uint n) else .ok (.str s)
   else .ok (.str s)
 
 /-- `Display for GeoValue`; floats via the table supplied from outside -/
